@@ -98,12 +98,26 @@ NOT_VIOLATING = {
  "C18b-1": "not kept: the changed behaviour stays inside the property as stated (\"a reduced capacity takes effect no later than when the window drains\": until then either capacity may bound the window; the model in comp_small.rs accepts both on purpose, otherwise a lazier but conforming implementation would raise a false alarm)",
 }
 
+NEEDS.update({
+ "C02c-2": ("step_leader: pending_conf_index = last_index + 1 for every entry of a batched MsgPropose (same change as C01-1, written independently)", "batched [normal, conf change] proposal, second conf change while the first is uncommitted, partition into old-config and new-config majorities, both sides time out"),
+ "C03c-1": ("Raft::step vote arm: the transfer-leader exemption from the priority check also skips is_up_to_date", "transfer to an up-to-date follower whose MsgTimeoutNow is delayed; the leader times the transfer out and commits another entry; the delayed message arrives; both peers grant the stale transferee"),
+ "C03c-2": ("step_leader: pending_conf_index = last_index + 1 for every entry of a batched MsgPropose (same change as C01-1, written independently)", "batched proposal, two overlapping membership changes, one-entry appends, a node elected by the old configuration's majority lacks an entry committed under the new one"),
+ "C15c-1": ("Progress::reset rewritten through reset_state(): pending_request_snapshot no longer cleared", "a follower requests a snapshot, the leader sends it and loses leadership before the status report, the same node is re-elected later: unrequested snapshot although nothing was compacted"),
+ "C15c-2": ("RawNode::report_snapshot: reject flag set for Finish instead of Failure", "follower behind the compaction point, progress in Snapshot state, status report arriving before the follower's acknowledgement"),
+})
+NOT_VIOLATING["C02c-1"] = "not kept: duplicate of C07-2 / C06-2 (RawNode::ready: must_sync only on a term change), written independently for C02; does not apply to the amended HEAD"
+
+NEEDS.update({
+ "C05c-1": ("RawNode::ready: 'term or vote changed' test uses && (ported to the amended F1 repair)", "sole voter with a learner whose durable vote is already itself (it led before and restarted) campaigns again: only the term changes, the Ready is not held, async persistence, crash before the disk catches up, same term won twice with different entries"),
+ "C05c-2": ("RawNode::ready: the record of a Ready no longer remembers its own term/vote change (ported to the amended F1 repair)", "sole voter with a learner, asynchronous persistence, a second Ready before on_persist_ready, leader crash and re-election in the same term"),
+})
+
 def verified():
     ok = {}
     for f in ["/tmp/vs_final.log"]:
         if not os.path.exists(f): continue
         for l in open(f):
-            m = re.match(r"(C\d\db?)-(\d)\w*: (.*)", l.strip())
+            m = re.match(r"(C\d\d[a-z]?)-(\d)\w*: (.*)", l.strip())
             if not m: continue
             key = f"{m.group(1)}-{m.group(2)}"
             ok[key] = ("FAILS (good)" in l and "PASSES (good)" in l and "270 passed 0 failed" in l, m.group(3))
@@ -117,7 +131,7 @@ def detection():
     for f in sorted(glob.glob("/tmp/mut_*.log")):
         cur = None
         for l in open(f):
-            m = re.match(r"######## (C\d\db?) patch(\d)", l)
+            m = re.match(r"######## (C\d\d[a-z]?) patch(\d)", l)
             if m: cur = f"{m.group(1)}-{m.group(2)}"; continue
             m = re.match(r"== (C\d\d) rc=(\d+)", l)
             if m and cur:
